@@ -91,6 +91,9 @@ class Kinds(object):
                 return True
             if n in ("sorted", "list", "tuple", "reversed", "iter", "enumerate") and e.args:
                 if n == "sorted":
+                    # a key function need not be injective: ties keep the iteration order of the argument (sorted is stable)
+                    if any(k.arg == "key" for k in e.keywords) and self.unordered(e.args[0], fn, depth + 1):
+                        return True
                     return False
                 return self.unordered(e.args[0], fn, depth + 1)
             a = call_attr(e)
